@@ -396,6 +396,10 @@ def h_m_call(w, st, rec):
     if m is None:
         raise Skip()
     obj, mtype, method = m["obj"], m["type"], rec["method"]
+    if rec.get("via"):
+        from .apis import clone
+        obj = clone(obj, rec["via"])           # the caller works on an equal copy of its model
+        w.probes["model.used_through_a_copy"] += 1
     site = method_site(mtype, method)
     a = rec.get("args", {})
     fn, args = call_method(w, st, obj, mtype, method, a, G.seed_object(w, rec.get("seed")))
@@ -1345,6 +1349,8 @@ def generate(run_seed, deep=False):
             # the same comparable call again, later, possibly by another client
             rec = copy.deepcopy(sc.choice(gs.repeatable[-12:]))
             rec["c"] = c
+            if rec.get("op") == "m.call" and g.random() < 0.15:
+                rec["via"] = g.choice(["deepcopy", "pickle"])
             rec.pop("as_model", None)
             if "keep" in rec:
                 gs.nres += 1
@@ -1546,7 +1552,7 @@ REQUIRED_PROBES = ["iv.do.non_source", "iv.shift.non_source", "iv.noise.non_sour
                    "history.aged_vs_twin", "sweep.fault_positions", "sweep.utils", "obs_law.checked", "obs_law.checked:anm", "obs_law.checked:nd", "buf.view", "gc.model_dropped",
                    "gc.model_id_reused", "two_models_from_one_caller_array", "model_from_generator_output", "buf.lower_rank",
                    "buf.readonly_view", "buf.column_vector", "call.by_keyword", "scribble.in:bound_method_owner", "scribble.in:model_object_held_by_a_callable",
-                   "scribble.in:partial_bound_array", "buf.pandas", "burst.calls_on_one_model",
+                   "scribble.in:partial_bound_array", "buf.pandas", "burst.calls_on_one_model", "model.used_through_a_copy",
                    "call.same_object_for_two_parameters",
                    "utils.unseeded_call",
                    "nd.check_valid"]
